@@ -40,3 +40,27 @@ Require RV.Gen.Sites RV.Model.SiteMap RV.Proofs.SitesFacts.
 Theorem C10_literals_reviewed : RV.Model.SiteMap.literals_ok RV.Model.SiteMap.files_C10.
 Proof. apply RV.Proofs.SitesFacts.literals_okb_sound. vm_compute. reflexivity. Qed.
 Print Assumptions C10_literals_reviewed.
+
+(* ---- LongTermKey::calc_srv_value AS TRANSLATED FROM THE SOURCE on this run ---- *)
+Require Import RV.Model.Message RV.Model.GenSupport RV.Gen.Code RV.Spec.MerkleGoals RV.Proofs.CodeMerkle.
+
+Theorem C10_translated_srv_value_is_model :
+  forall H, HashLen H -> forall pk, gen_calc_srv_value H pk = Ok (calc_srv_value H pk).
+Proof. exact gen_calc_srv_value_model. Qed.
+Print Assumptions C10_translated_srv_value_is_model.
+
+(* ---- OnlineKey::make_dele and LongTermKey::make_cert AS TRANSLATED FROM THE SOURCE on this run:
+   the window constants (MINT = 8 zero bytes, MAXT = 8 0xff bytes), the field order, the signature
+   over the version's delegation prefix ++ DELE ---- *)
+Require Import RV.Proofs.CodeKeys.
+
+Theorem C10_translated_make_cert_is_model :
+  forall ed_pk ed_sign lt v ok,
+    ok_opt (gen_make_cert ed_pk ed_sign lt v ok) = ok_opt (make_cert ed_pk ed_sign v lt ok).
+Proof. exact gen_make_cert_model. Qed.
+Print Assumptions C10_translated_make_cert_is_model.
+
+Theorem C10_translated_make_dele_is_model :
+  forall ed_pk ok, ok_opt (gen_make_dele ed_pk ok) = ok_opt (make_dele ed_pk ok).
+Proof. exact gen_make_dele_model. Qed.
+Print Assumptions C10_translated_make_dele_is_model.
